@@ -55,6 +55,32 @@ func main() {
 		}
 	case "paths":
 		debugPaths(envOr("HRVERIF_REPO", "/repo"), os.Args[2])
+	case "baseline":
+		// hrverif baseline [--repo DIR] [--verif DIR]: writes universe_baseline.json from the current tree.
+		// Run by hand when rule instances were re-confirmed; never run by a check.
+		repo, verif := envOr("HRVERIF_REPO", "/repo"), envOr("HRVERIF_DIR", "/verif")
+		p, err := core.LoadRepo(repo, nil)
+		if err != nil {
+			fmt.Fprintf(os.Stderr, "hrverif: cannot analyse %s: %v\n", repo, err)
+			os.Exit(2)
+		}
+		bl := core.Baseline{Obligations: map[string]map[string]int{}, Universes: map[string]map[string]int{}}
+		var ids []string
+		for id := range rules.Props {
+			ids = append(ids, id)
+		}
+		sort.Strings(ids)
+		for _, id := range ids {
+			ctx := core.NewCtx(id, "quick", p)
+			rules.Props[id].Run(ctx)
+			bl.Obligations[id], bl.Universes[id] = ctx.BaselineOf()
+		}
+		b, _ := json.MarshalIndent(bl, "", " ")
+		if err := os.WriteFile(filepath.Join(verif, "universe_baseline.json"), append(b, '\n'), 0o644); err != nil {
+			fmt.Fprintln(os.Stderr, err)
+			os.Exit(2)
+		}
+		fmt.Printf("baseline of %d properties written\n", len(ids))
 	case "matrix":
 		// hrverif matrix --repo DIR --verif SCRATCH [Cnn...]: one load, the quick rules of every named property (development aid)
 		repo, verif := envOr("HRVERIF_REPO", "/repo"), ""
